@@ -119,21 +119,17 @@ structure Message (r0 : Rd) (f0 : WFrame) (fs : List WFrame) : Prop where
   acc0 : AcceptsAt r0.skipCheck r0.state r0.maxFrame f0.h
   rest : if f0.h.fin then fs = [] else Tail false r0.skipCheck (stSet r0.state stFragmented) r0.maxFrame fs
 
-/-- **C04, message level.** See the file header. -/
-theorem message_delivered (r0 : Rd) (s : Src) (cx : Ctx) (f0 : WFrame) (fs : List WFrame) (rest : Bytes)
-    (ks : List Nat) (hpos : ∀ k ∈ ks, 0 < k)
-    (hidle : r0.hasFrame = false) (hnf : r0.fragmented = false) (hst : r0.state < 256)
+/-- Entering a message (any OnIntermediate handler): NextFrame installs the first frame and the
+    stream invariant of Proofs/Reader holds with all of the message still to deliver. -/
+theorem message_enter (r0 : Rd) (s : Src) (cx : Ctx) (cb : Option Callback) (f0 : WFrame) (fs : List WFrame) (rest : Bytes)
+    (hnf : r0.fragmented = false) (hst : r0.state < 256)
     (hext : r0.ext = false) (hu8 : r0.checkUTF8 = false)
     (hm : Message r0 f0 fs)
     (hb : s.bytes = encodeFs (f0 :: fs) ++ rest) (hwf : Bytes.WF s.bytes) (htame : Src.Tame s) :
-    ∃ r1 s1 out e r' s',
-      r0.nextFrame s cx none = (some f0.h, none, r1, s1, cx) ∧ r1.hasFrame = true
-      ∧ reads r1 s1 cx ks = some (out, e, r', s', cx)
-      ∧ (∃ more, dataPlain (f0 :: fs) = out ++ more)
-      ∧ (e = none ∨ e = some .eof)
-      ∧ (e = some .eof → out = dataPlain (f0 :: fs) ∧ s'.bytes = rest ∧ Done (stSet r0.state stFragmented) r0 r'
-                          ∧ r'.state = r0.state)
-      ∧ (mu s < ks.length → e = some .eof) := by
+    ∃ s1, r0.nextFrame s cx cb = (some f0.h, none, enter r0 f0.h, s1, cx)
+      ∧ Sync false r0.skipCheck (stSet r0.state stFragmented) r0.maxFrame rest (enter r0 f0.h) s1 (dataPlain (f0 :: fs)) fs
+      ∧ mu s1 < mu s
+      ∧ stClear (stSet r0.state stFragmented) stFragmented = r0.state := by
   obtain ⟨b1, b2, b3, b4⟩ := stbits r0.state hst
   have hfr0 : stIs r0.state stFragmented = false := by simpa [Rd.fragmented] using hnf
   have hbytes : s.bytes = rfcEncode f0.h ++ (f0.wire ++ (encodeFs fs ++ rest)) := by
@@ -142,7 +138,7 @@ theorem message_delivered (r0 : Rd) (s : Src) (cx : Ctx) (f0 : WFrame) (fs : Lis
     rw [hbytes] at hwf; exact wf_append_right hwf
   obtain ⟨s1, hrh, hb1, ht1, hmu1⟩ := readHeader_ok f0.h hm.ok0.hwf _ hwt s hbytes htame
   have hacc : Accepts r0 f0.h := hm.acc0
-  have hnext := nextFrame_data r0 s s1 cx none f0.h hrh hacc hext hm.data0
+  have hnext := nextFrame_data r0 s s1 cx cb f0.h hrh hacc hext hm.data0
   let st := stSet r0.state stFragmented
   have hc : Common r0.skipCheck st r0.maxFrame (enter r0 f0.h) s1 :=
     ⟨by simp [enter, hext], by simp [enter, hu8], by simp [enter], by simp [enter], ht1, by rw [hb1]; exact hwt, b1, b2, b3⟩
@@ -177,6 +173,25 @@ theorem message_delivered (r0 : Rd) (s : Src) (cx : Ctx) (f0 : WFrame) (fs : Lis
       refine Sync.mid _ s1 f0.wire fs hc ?_ (by simp [enter, hfin', st]) hrest
       exact ⟨by simp [enter], by simp [enter, hu8], hb1, by simp [enter, hm.ok0.len],
           by rw [hb1]; exact hwt, by simp [enter]; exact hm.ok0.mwf, ht1⟩
+  exact ⟨s1, hnext, hsync, hmu1, b4 hfr0⟩
+
+/-- **C04, message level.** See the file header. -/
+theorem message_delivered (r0 : Rd) (s : Src) (cx : Ctx) (f0 : WFrame) (fs : List WFrame) (rest : Bytes)
+    (ks : List Nat) (hpos : ∀ k ∈ ks, 0 < k)
+    (hidle : r0.hasFrame = false) (hnf : r0.fragmented = false) (hst : r0.state < 256)
+    (hext : r0.ext = false) (hu8 : r0.checkUTF8 = false)
+    (hm : Message r0 f0 fs)
+    (hb : s.bytes = encodeFs (f0 :: fs) ++ rest) (hwf : Bytes.WF s.bytes) (htame : Src.Tame s) :
+    ∃ r1 s1 out e r' s',
+      r0.nextFrame s cx none = (some f0.h, none, r1, s1, cx) ∧ r1.hasFrame = true
+      ∧ reads r1 s1 cx ks = some (out, e, r', s', cx)
+      ∧ (∃ more, dataPlain (f0 :: fs) = out ++ more)
+      ∧ (e = none ∨ e = some .eof)
+      ∧ (e = some .eof → out = dataPlain (f0 :: fs) ∧ s'.bytes = rest ∧ Done (stSet r0.state stFragmented) r0 r'
+                          ∧ r'.state = r0.state)
+      ∧ (mu s < ks.length → e = some .eof) := by
+  obtain ⟨s1, hnext, hsync, hmu1, hb4⟩ := message_enter r0 s cx none f0 fs rest hnf hst hext hu8 hm hb hwf htame
+  let st := stSet r0.state stFragmented
   have key := reads_sync false r0.skipCheck st r0.maxFrame rest ks hpos _ s1 cx _ _ hsync
   have key' : ∃ out e r' s', reads (enter r0 f0.h) s1 cx ks = some (out, e, r', s', cx) ∧
       ((e = none ∧ ∃ rem' fs', dataPlain (f0 :: fs) = out ++ rem' ∧ Sync false r0.skipCheck st r0.maxFrame rest r' s' rem' fs'
@@ -198,7 +213,7 @@ theorem message_delivered (r0 : Rd) (s : Src) (cx : Ctx) (f0 : WFrame) (fs : Lis
     · rw [h1] at he; exact absurd he (by simp)
     · refine ⟨h1.symm, h2, ?_, ?_⟩
       · exact ⟨h4.has, h4.state, h4.op, h4.u8, h4.raw, h4.u8on, by simpa [enter] using h4.cfg⟩
-      · rw [h4.state]; exact b4 hfr0
+      · rw [h4.state]; exact hb4
   · intro hlen
     rcases hcase with ⟨_, _, _, _, _, hw⟩ | ⟨h1, _⟩
     · exfalso
